@@ -25,3 +25,13 @@ Proof. exact mkfs_fat0_spec. Qed.
 Print Assumptions C14_fat0.
 Example C14_example : exists p, Gen.mkfs_geometry pf_init 12 65536 512 2 = Ok (p, 128, 1, 224, 1, 1, 0, 128, 0).
 Proof. eexists. vm_compute. reflexivity. Qed.
+
+(** FAT12: the size table keeps the cluster count in the FAT12 range for EVERY size mkfs accepts (each row of the
+    generated table satisfies sectors <= 4084 * sectors-per-cluster; checked by computation on the table of the current source) *)
+Theorem C14_fat12_type : forall size ss nf p num_sec spc rootent rsvd f16 f32 t16 t32,
+  0 < ss -> 0 <= size -> 0 <= nf ->
+  Gen.mkfs_geometry pf_init 12 size ss nf = Ok (p, num_sec, spc, rootent, rsvd, f16, f32, t16, t32) ->
+  num_sec <= 4084 * spc /\
+  (0 <= nf * _fat_size p -> (num_sec - (rsvd + root_dir_sectors p + nf * _fat_size p)) / spc < 4085).
+Proof. exact mkfs_fat12_count. Qed.
+Print Assumptions C14_fat12_type.
